@@ -19,6 +19,7 @@ import Retro.Props.C15.Closed
 import Retro.Props.C15.ClosedEuler
 import Retro.Props.C15.ClosedPoles
 import Retro.Props.C15.ClosedCones
+import Retro.Props.C15.ClosedTorus
 import Mathlib.Tactic.Ring
 import Mathlib.Tactic.LinearCombination
 import Mathlib.Algebra.Field.Basic
